@@ -1040,7 +1040,22 @@ fn run_consolidate(rng: &mut Rng_, ids: &mut Ids, out: &mut Out, n: usize) {
             while m.xorbs.is_empty() && m.files.is_empty() {
                 m = random_model(rng, &pool, &format!("C{i}s{j}"), 3, 3, 3);
             }
-            let p = to_mem(&m).write_to_directory(dir.path()).unwrap();
+            // mostly as flushed; sometimes without lookup tables (as the minimal reader writes a shard out: the
+            // footer's lookup counts are 0 although the shard has records)
+            let p = if rng.gen_bool(0.3) {
+                let full = serialize(&to_mem(&m));
+                let mut bare = vec![];
+                match MDBMinimalShard::from_reader(&mut Cursor::new(&full), true, true).and_then(|ms| ms.serialize(&mut bare)) {
+                    Ok(_) => {
+                        let p = dir.path().join(mdb_shard::utils::shard_file_name(&compute_data_hash(&bare)));
+                        std::fs::write(&p, &bare).unwrap();
+                        p
+                    },
+                    Err(_) => to_mem(&m).write_to_directory(dir.path()).unwrap(),
+                }
+            } else {
+                to_mem(&m).write_to_directory(dir.path()).unwrap()
+            };
             let fname = p.file_name().unwrap().to_string_lossy().to_string();
             if names.contains_key(&fname) {
                 continue; // identical content: same file
